@@ -3,28 +3,37 @@ import os
 import vf
 from _ctlreg import par, trace_actions, path_cover as big_path_cover
 
-INVS = "TypeOK AtMostOneRegistered ThreadsOnlyWhenKept ItemsFromKept"
+INVS = "TypeOK AtMostOneRegistered ThreadsOnlyWhenKept RunningImpliesRegistered ItemsFromKept"
 PROPS = "RejectedDeliversNothing StaleTeardownHarmless"
-DEVS = ["DevCleanupByIdentityOnStaleCallback", "DevTeardownDeregistersByIdentity", "DevRegisterReplaces", "DevRejectedStillReads"]
+DEVS = ["DevCleanupByIdentityOnStaleCallback", "DevTeardownDeregistersByIdentity", "DevRegisterReplaces", "DevRejectedStillReads",
+        "DevKeepaliveDisconnectsByIdentity", "DevRegisterCheckThenAct"]
+# instance in which each deviation is checked (MaxLink, MaxAnn, MaxApi, MaxRelay, KaOf, MaxKa, SplitRegister)
+DEVCFG = {d: (2, 0, 0, 1, ["a"], 1, False) for d in DEVS}
+DEVCFG["DevRegisterCheckThenAct"] = (2, 0, 0, 0, [], 0, True)
 SITE = {"DevCleanupByIdentityOnStaleCallback": "agent.handlePeerDisconnect",
         "DevTeardownDeregistersByIdentity": "peer.Manager.handleDisconnect",
         "DevRegisterReplaces": "peer.Manager.registerConnection",
-        "DevRejectedStillReads": "peer.Manager.registerConnection"}
+        "DevRejectedStillReads": "peer.Manager.registerConnection",
+        "DevKeepaliveDisconnectsByIdentity": "peer.Manager.keepaliveLoop",
+        "DevRegisterCheckThenAct": "peer.Manager.registerConnection"}
 HFILES = ["common/common_test.go.tmpl", "agent/cmesh_test.go", "agent/ctlreg_await_test.go", "agent/peerreg_test.go"]
 EXTRA = {"peer": ["peer/peerreg_export.go"]}
 
 
-def cfg(maxlink, maxann, maxapi, maxrelay, kaof, dev=(), emit=False, invs=INVS, props=PROPS):
-    return ("CONSTANTS MaxLink = %d MaxAnn = %d MaxApi = %d MaxRelay = %d KaOf = {%s} Dev = {%s} Emit = %s\n"
+def cfg(maxlink, maxann, maxapi, maxrelay, kaof, maxka, split, dev=(), emit=False, invs=INVS, props=PROPS):
+    return ("CONSTANTS MaxLink = %d MaxAnn = %d MaxApi = %d MaxRelay = %d KaOf = {%s} MaxKa = %d SplitRegister = %s "
+            "Dev = {%s} Emit = %s\n"
             "INIT Init\nNEXT Next\nVIEW view\nACTION_CONSTRAINT EmitEdge\n%s%s" % (
-                maxlink, maxann, maxapi, maxrelay, ",".join('"%s"' % a for a in kaof), ",".join('"%s"' % d for d in dev),
+                maxlink, maxann, maxapi, maxrelay, ",".join('"%s"' % a for a in kaof), maxka, "TRUE" if split else "FALSE",
+                ",".join('"%s"' % d for d in dev),
                 "TRUE" if emit else "FALSE", ("INVARIANTS " + invs + "\n") if invs else "",
                 ("PROPERTIES " + props + "\n") if props else ""))
 
 
 def model(ctx):
-    small = (2, 0, 0, 1, ["a"]) if ctx.quick() else (2, 1, 0, 1, ["a"])            # every transition replayed
-    big = (2, 1, 0, 1, ["a", "b"]) if ctx.quick() else (3, 1, 1, 1, ["a", "b"])   # exhaustive check only
+    # (MaxLink, MaxAnn, MaxApi, MaxRelay, KaOf, MaxKa, SplitRegister)
+    small = (2, 0, 0, 1, ["a"], 1, False) if ctx.quick() else (2, 1, 0, 1, ["a"], 1, False)      # every transition replayed
+    big = (2, 0, 0, 1, ["a", "b"], 1, True) if ctx.quick() else (2, 1, 1, 1, ["a", "b"], 2, True)  # exhaustive check only
 
     def ideal_job(c):
         return c.tlc("PeerReg", "MC.cfg", files={"MC.cfg": cfg(*small, emit=True)}, name="PeerReg-replayed", workers=2 if ctx.quick() else 4)
@@ -32,7 +41,7 @@ def model(ctx):
     def dev_job(d):
         def job(c):
             fn = "MCdev-%s.cfg" % d
-            return c.tlc("PeerReg", fn, files={fn: cfg(2, 0, 0, 1, ["a"], dev=[d])}, expect_violation=True,
+            return c.tlc("PeerReg", fn, files={fn: cfg(*DEVCFG[d], dev=[d])}, expect_violation=True,
                          name="PeerReg-" + d, workers=2)
         return job
     res = par(ctx, [ideal_job] + [dev_job(d) for d in DEVS])
@@ -67,10 +76,14 @@ def replay(ctx, mdl, shards=None):
     if shards is None:
         shards = 4 if ctx.quick() else 8
 
+    lock_rounds, free_rounds = (12, 150) if ctx.quick() else (60, 3000)
+
     def shard_job(i):
         def job(c):
-            return c.gotest("agent", HFILES, "^TestZZVRegReplay$", env={"ZZV_IN": inp, "ZZV_SHARD": i, "ZZV_NSHARD": shards},
-                            extra_pkgs=EXTRA, timeout=2400)
+            run = "^TestZZVRegReplay$" if i else "^TestZZVReg(Replay|Race)$"      # shard 0 also runs the race driver
+            return c.gotest("agent", HFILES, run, extra_pkgs=EXTRA, timeout=2400,
+                            env={"ZZV_IN": inp, "ZZV_SHARD": i, "ZZV_NSHARD": shards,
+                                 "ZZV_RACE_LOCKSTEP": lock_rounds, "ZZV_RACE_FREE": free_rounds})
         return job
 
     def big_job(c):
@@ -91,7 +104,13 @@ def replay(ctx, mdl, shards=None):
     total = {k: sum(s[k] for s in summ) for k in ("paths", "steps", "viol", "diverged")}
     if total["paths"] != len(paths):
         raise vf.Infra("replayed %d of %d paths" % (total["paths"], len(paths)))
-    return {"paths": paths, "nodes": nnodes, "edges": nedges, "total": total,
+    race = [r for r in recs if r.get("k") == "race"]
+    if not race:
+        raise vf.Infra("race driver produced no record")
+    if race[0]["aligned"] == 0:
+        raise vf.Infra("race driver: in none of the %d lockstep rounds both registrations queued up at the manager mutex"
+                       % race[0]["lockstep"])
+    return {"paths": paths, "nodes": nnodes, "edges": nedges, "total": total, "race": race[0],
             "mismatches": [r for r in recs if r.get("k") == "mismatch"],
             "scenarios": [r for r in recs if r.get("k") == "scenario"]}
 
@@ -105,9 +124,13 @@ def explain(mm):
         return "DevRejectedStillReads"
     if "duplicate:" in oracle:
         return "DevRegisterReplaces"
+    if "live connection that is not the registered one" in oracle:
+        return "DevRegisterCheckThenAct"
     if "stale teardown" in oracle:
+        if a.get("act") == "KaFail" and ("registration" in oracle or "closed the live" in oracle):
+            return "DevKeepaliveDisconnectsByIdentity"
         return "DevTeardownDeregistersByIdentity" if "registration" in oracle else "DevCleanupByIdentityOnStaleCallback"
-    if a.get("act") in ("KaTimeout", "ReadTeardown"):
+    if a.get("act") in ("KaFail", "ReadTeardown"):
         return "DevTeardownDeregistersByIdentity" if any(f.startswith("reg.") for f in fields) else "DevCleanupByIdentityOnStaleCallback"
     if a.get("act") in ("AcceptHello", "DeliverAck"):
         return "DevRegisterReplaces"
@@ -118,6 +141,11 @@ def explain(mm):
 
 def report(ctx, mdl, rp):
     n = 0
+    for v in (rp["race"]["violations"] or [])[:3]:
+        d = explain({"oracle": [v["what"]]}) or "DevRegisterCheckThenAct"
+        ctx.finding("PeerReg:%s:%s" % (d, SITE[d]),
+                    "concurrent registrations for one peer identity (%s round %s): %s" % (v["mode"], v["round"], v["what"]), v)
+        n += 1
     for sc in rp["scenarios"]:
         if sc.get("oracle"):
             d = explain({"oracle": sc["oracle"]}) or sc["name"]
